@@ -1220,7 +1220,7 @@ def run_one(ctx, c):
 
 def generate(ctx: Ctx, scale: int, rng):
     n = lambda q: max(1, q * scale)
-    for i in range(n(1100)):
+    for i in range(n(700)):
         size = rng.choice(["tiny", "normal", "normal", "normal", "large"])
         c = gen_message(rng, size=size)
         try:
@@ -1232,7 +1232,7 @@ def generate(ctx: Ctx, scale: int, rng):
             ctx.count("gen.not-wellformed")
             continue
         run_one(ctx, c)
-    for i in range(n(6)):
+    for i in range(n(4)):
         c = gen_message(rng, size="huge", origin_mode=rng.choice([0, 5, 5]))
         try:
             c = normalise(c)
@@ -1240,7 +1240,7 @@ def generate(ctx: Ctx, scale: int, rng):
             continue
         if wellformed(c):
             run_one(ctx, c)
-    for i in range(n(400)):
+    for i in range(n(260)):
         try:
             c = gen_update(rng)
         except Exception:
@@ -1260,7 +1260,7 @@ def generate(ctx: Ctx, scale: int, rng):
                                 rd[f] = hexl(absolute(L(rd[f]), org))
             c2["origin"] = None
             run_one(ctx, c2)
-    for i in range(n(1500)):
+    for i in range(n(1000)):
         c = model_exact_message(rng)
         try:
             c = normalise(c)
@@ -1285,7 +1285,7 @@ def generate(ctx: Ctx, scale: int, rng):
     FL = [0, 1, 0xF, 0x10, 0x7800, 0x2800, 0x8000, 0xFFFF, 0x87FF, 0x0800, 0x7FFF]
     EF = [0, 0x00800000, 0xFF000000, 0x01000000, 0xFFFFFFFF, 0x00FF0000, 0x0000FFFF, 0x10008000]
     V = [0, 1, 15, 16, 17, 255, 256, 4095, 4096, 5000, 23]
-    for i in range(n(400)):
+    for i in range(n(250)):
         hc = {"kind": "hdr", "flags": rng.choice(FL + [rng.below(65536)]), "ednsflags": rng.choice(EF + [rng.below(2 ** 32)]),
               "value": rng.choice(V + [rng.below(4200)])}
         run_one(ctx, hc)
@@ -1297,7 +1297,7 @@ def run(ctx: Ctx):
         ctx.case(("corpus", p), sample=None)
         eval_case(ctx, c)
         ctx.count("corpus")
-    generate(ctx, 1 if ctx.tier == "quick" else 20, ctx.rng)
+    generate(ctx, 1 if ctx.tier == "quick" else 30, ctx.rng)
 
 
 def search(ctx: Ctx):
@@ -1307,7 +1307,7 @@ def search(ctx: Ctx):
                 eval_case(ctx, m.case)
             except Exception:
                 pass
-    generate(ctx, 3 if ctx.tier == "quick" else 30, ctx.rng.fork(7))
+    generate(ctx, 3 if ctx.tier == "quick" else 40, ctx.rng.fork(7))
 
 
 def replay(ctx: Ctx, obj: dict):
